@@ -15,6 +15,7 @@ EXPLANATION = ("Decided from MIR: (R1) in EntryStore::finalize every call that c
                " (R3 Word) Word::get evaluates the stored closure at every call: no memoised value in `get` nor as a field of Word."
                " Added later: (R5) a constructor given a Vow<EntryIdx> moves it whole into the entry; (R6) = C02-R1 for positions kept in signed columns; (R7) the transformation of the caller's values never evaluates a deferred word; (R1) no sort after a consumer. (R8) = C02-R16 for constant columns of references. (R9) the entry stores are finalised in declaration order.")
 EXPLANATION += ' Batch 11: (R10) EntryTrait::set_idx / get_idx are required methods and the Box<T> wrapper forwards every method of the trait.'
+EXPLANATION += ' Batch 12: (R11) nothing that runs before the entry stores are finalised can evaluate a deferred word (Word/Bound/Vow::get).'
 ASSUMPTIONS = ["rayon par_iter_mut().enumerate() yields (position, element) pairs", "atomics with Relaxed ordering are read after the join of finalisation",
                "rustc MIR construction and trait resolution"]
 
@@ -353,7 +354,60 @@ def r10_every_entry_type_keeps_its_position(cx):
               "the wrapper defines every method of EntryTrait (missing: %s) and forwards set_idx / get_idx to the wrapped entry (%s)" % (missing or "none", fwd))
 
 
+def r11_no_deferred_word_is_read_before_the_stores_are_final(cx, rule="R11"):
+    """'a reference resolves to the final position': an index window, a property, a sort key may hold a deferred word
+    (`Word` / `Bound` / `Vow`) bound to the position of an entry. Positions become final when the entry stores are finalised
+    (sorted, renumbered). In DirectoryPackCreator::finalize nothing that can evaluate such a word runs before that: no call
+    made ahead of the finalisation of the entry stores reaches `Word::get` / `Bound::get` / `Vow::get` (directly, through a
+    helper, or through a closure handed to an iterator adaptor)."""
+    F = cx.F
+    f = F.one(impl_self="DirectoryPackCreator", item="finalize", closure=False)
+    b = F.deep_body(f, only=r"DirectoryPackCreator", closures=True)
+    getters = {g["id"] for g in F.fns if re.search(r"delayed::(Word|Bound|Vow)::<.*>::get$|delayed::(Word|Bound|Vow)<.*>::get$", g["name"])}
+    if not getters:
+        raise AnchorLost("Word::get / Bound::get / Vow::get")
+
+    def fin_sites(body):
+        out = {i for i, _ in body.calls(r"EntryStoreTrait>::finalize$")}
+        for i, t in body.calls(r"."):
+            for a in t["args"]:
+                l = op_base_local(a)
+                for d in body.defs().get(l, []) if l is not None else []:
+                    if d[0] == "stmt" and d[3]["k"] == "assign" and d[3]["rv"].get("closure_fn") is not None:
+                        c = F.fns[d[3]["rv"]["closure_fn"]]
+                        if "blocks" in c and F.body(c).calls(r"EntryStoreTrait>::finalize$"):
+                            out.add(i)
+        return out
+    fin = fin_sites(b)
+    if not fin:
+        raise AnchorLost("DirectoryPackCreator::finalize no longer finalises the entry stores")
+    early = []
+    n = 0
+    for i, t in b.calls(r"."):
+        if b.is_cleanup(i) or i in fin or not (fin & b.reach_after(i)):
+            continue       # only what runs before (some) finalisation of the stores
+        n += 1
+        roots = []
+        c = t.get("callee") or {}
+        for k in ("rfn", "def_fn"):
+            if c.get(k) is not None:
+                roots.append(c[k])
+        for a in t["args"]:
+            l = op_base_local(a)
+            for d in b.defs().get(l, []) if l is not None else []:
+                if d[0] == "stmt" and d[3]["k"] == "assign" and d[3]["rv"].get("closure_fn") is not None:
+                    roots.append(d[3]["rv"]["closure_fn"])
+        if not roots:
+            continue
+        r = F.reach(roots)
+        if r & getters:
+            early.append("line %s: %s" % (t.get("ln"), callee_str(t).split("::<")[0][-50:]))
+    cx.ob(rule, rule + "/DirectoryPackCreator.finalize/words-read-after-the-stores-are-final", not early, f,
+          "%d calls run before the entry stores are finalised; none of them can evaluate a deferred word (%s)" % (n, early or "none"))
+
+
 RULES = [
+    ("R11", r11_no_deferred_word_is_read_before_the_stores_are_final, 1),
     ("R10", r10_every_entry_type_keeps_its_position, 3),
     ("R9", r9_stores_are_finalised_in_declaration_order, 1),
     ("R8", r8_constant_reference_columns_keep_their_width, 2),
